@@ -50,6 +50,21 @@ theorem Merge.filter {a b m : List α} (h : Merge a b m) (f : α → Bool) :
     · exact .right x ih
     · exact ih
 
+theorem Merge.filterMap {a b m : List α} (h : Merge a b m) (f : α → Option β) :
+    Merge (a.filterMap f) (b.filterMap f) (m.filterMap f) := by
+  induction h with
+  | nil => exact .nil
+  | left x _ ih =>
+    simp only [List.filterMap_cons]
+    split
+    · exact ih
+    · exact .left _ ih
+  | right x _ ih =>
+    simp only [List.filterMap_cons]
+    split
+    · exact ih
+    · exact .right _ ih
+
 theorem Merge.perm {a b m : List α} (h : Merge a b m) : m.Perm (a ++ b) := by
   induction h with
   | nil => exact .refl _
@@ -698,4 +713,27 @@ theorem quic_run_merge (M : QuicMachine κ τ ο) (o : Opts) {A B C : List (QIn 
   simp only [quicRun_eq_router]
   exact (quicRouter M o).run_merge hm .nil (quic_iso_of_separated M o hAB) (quic_iso_of_separated M o hBA)
 end QuicApart
+
+section Whole
+variable {κ σ τ ο : Type}
+
+theorem runItems_proj (TM : TlsMachine κ σ ο) (QM : QuicMachine κ τ ο) (o : Opts) (items : List (Item κ))
+    (st : State κ σ τ) :
+    (runItems TM QM o st items).tls = tlsRun TM o st.tls (tcpView o items) ∧
+    (runItems TM QM o st items).keylog = st.keylog ++ dsbKeys o items ∧
+    (runItems TM QM o st items).quic = quicRun QM o st.quic (quicView o st.keylog items) := by
+  induction items generalizing st with
+  | nil => simp [runItems, tlsRun, quicRun, tcpView, dsbKeys, quicView]
+  | cons it rest ih =>
+    have := ih (step TM QM o st it)
+    simp only [runItems, List.foldl_cons] at this ⊢
+    obtain ⟨h1, h2, h3⟩ := this
+    rw [h1, h2, h3]
+    simp only [step, tcpView, dsbKeys, quicView, List.filterMap_cons, List.flatMap_cons]
+    cases classify o it with
+    | keys ks => simp [List.append_assoc]
+    | tls p => simp [tlsRun]
+    | quic p b0 r => simp [quicRun]
+    | ignore w => simp
+end Whole
 end TLX.Lemmas.MainLoop
